@@ -450,11 +450,21 @@ pub fn hostile_doc(rng: &mut Rng, env: &WorkerEnv) -> (String, Vec<u8>) {
             const ARGS: &[&str] = &[
                 "sqrt(-1)", "0/0", "1e39", "-1e39", "1e39 - 1e39", "0", "-0", "1", "-1", "0.5", "2147483648", "-2147483649", "1e-45", "3.4e38",
                 "'a'", "''", "'a b'", "1, 2", "()", "log(0)", "exp(100)", "$nope", "#nope~w", "randint(1, 1)", "pow(0, -1)", "1 % 0",
+                // magnitudes around the integer types an implementation might convert through
+                "-1e19", "1e19", "-9.3e18", "9223372036854775807", "-9223372036854775808", "-1e30", "4294967296", "-4294967296",
+                "16777217", "255", "256", "65536", "-32769", "1e10",
             ];
+            const OPS: &[&str] = &["+", "-", "*", "/", "%", "&lt;", "&gt;", "==", "!=", "&lt;=", "&gt;=", "&amp;&amp;", "||", "and", "or", "xor"];
             let f = *rng.pick(FUNCS);
             let n = rng.usize(5);
             let args: Vec<&str> = (0..n).map(|_| *rng.pick(ARGS)).collect();
-            let e = format!("{f}({})", args.join(", "));
+            let e = if rng.chance(1, 3) {
+                // the infix operators over the same operands (unary minus included)
+                let neg = if rng.chance(1, 4) { "-" } else { "" };
+                format!("{neg}({}) {} {}", *rng.pick(ARGS), *rng.pick(OPS), *rng.pick(ARGS))
+            } else {
+                format!("{f}({})", args.join(", "))
+            };
             let site = match rng.below(5) {
                 0 => format!("<rect wh=\"{{{{{e}}}}}\"/>"),
                 1 => format!("<rect wh=\"2\" text=\"{{{{{e}}}}}\"/>"),
@@ -539,6 +549,61 @@ pub fn hostile_doc(rng: &mut Rng, env: &WorkerEnv) -> (String, Vec<u8>) {
                 "<?xml version='1.0'?>\n<!-- lead -->\n<svg\nxmlns=\"http://www.w3.org/2000/svg\">",
             ]);
             ("real-svg-noncanonical".into(), format!("{root}{body}</svg>\n").into_bytes())
+        }
+        40 => {
+            // every infix operator and every two-argument function over all ordered pairs of
+            // 14 special operands (drawn per document from 40): one expression per element
+            const OPERANDS: &[&str] = &[
+                "0", "-0", "1", "-1", "2", "0.5", "-0.5", "sqrt(-1)", "1e39", "-1e39", "1e-45", "3.4e38", "-3.4e38", "2147483647",
+                "2147483648", "-2147483648", "-2147483649", "4294967295", "4294967296", "9223372036854775807", "-9223372036854775808",
+                "-9.3e18", "1e19", "-1e19", "1e30", "-1e30", "16777216", "16777217", "255", "256", "65535", "65536", "-32769", "1e10",
+                "-1e10", "0.1", "1e-10", "100", "-100", "3",
+            ];
+            // (written as they must be inside an XML attribute value)
+            const OPS: &[&str] = &["+", "-", "*", "/", "%", "&lt;", "&gt;", "==", "!=", "&lt;=", "&gt;=", "&amp;&amp;", "||"];
+            const FN2: &[&str] = &[
+                "divmod", "pow", "min", "max", "sum", "product", "mean", "eq", "ne", "lt", "le", "gt", "ge", "and", "or", "xor", "swap", "r2p",
+                "p2r", "addv", "subv", "scalev", "in", "randint", "atan", "select", "mix", "clamp", "if",
+            ];
+            let mut picked: Vec<&str> = Vec::new();
+            while picked.len() < 14 {
+                let o = *rng.pick(OPERANDS);
+                if !picked.contains(&o) {
+                    picked.push(o);
+                }
+            }
+            let mut s = String::from("<svg>");
+            for a in &picked {
+                for b in &picked {
+                    for op in OPS {
+                        s.push_str(&format!("<rect wh=\"1\" data-k=\"{{{{({a}) {op} ({b})}}}}\"/>"));
+                    }
+                    for f in FN2 {
+                        s.push_str(&format!("<rect wh=\"1\" data-k=\"{{{{{f}({a}, {b})}}}}\"/>"));
+                    }
+                }
+            }
+            s.push_str("</svg>");
+            ("expr-pair-grid".into(), s.into_bytes())
+        }
+        41 => {
+            // a chain of variables whose VALUES are the text "$prev + $prev" (built with join so
+            // that nothing is substituted at definition): evaluating the last one evaluates the
+            // first 2^n times unless lookups are bounded
+            let n = if env.tier == crate::core::Tier::Quick { *rng.pick(&[4usize, 10, 16, 22]) } else { *rng.pick(&[8usize, 16, 24, 40, 90]) };
+            let sep = *rng.pick(&[" + ", " * ", ", "]);
+            let mut s = String::from("<svg><var v0=\"1\"/>");
+            for i in 1..=n {
+                s.push_str(&format!("<var v{i}=\"{{{{_(join('', '$', 'v{} {sep} ', '$', 'v{}'))}}}}\"/>", i - 1, i - 1));
+            }
+            let site = match rng.below(3) {
+                0 => format!("<text xy=\"0 0\" text=\"{{{{$v{n}}}}}\"/>"),
+                1 => format!("<rect wh=\"{{{{count($v{n})}}}}\"/>"),
+                _ => format!("<if test=\"$v{n}\"><rect wh=\"1\"/></if>"),
+            };
+            s.push_str(&site);
+            s.push_str("</svg>");
+            ("lazy-var-doubling".into(), s.into_bytes())
         }
         28 => {
             let (dd, why) = docgen::failing_doc(rng);
